@@ -240,8 +240,8 @@ def run(c, facts, tier):
     for key, fn in facts.fns.items():
         if fn.test or "Parser<" not in fn.node["output"]:
             continue
-        if [n for n, _ in fn.params]:
-            continue  # a parser builder, expanded at its call sites
+        if [n for n, _ in fn.params] or F.generic_params(fn.node.get("generics")):
+            continue  # a parser builder (value or type parameters), expanded at its call sites
         fb = b.fn_ir(key)
         if not fb.get("returns_parser"):
             continue
